@@ -437,9 +437,179 @@ def genNested : Gen (E × String) := do
   let op ← pick (setOps ++ [.union, .diff])
   pure (.bin op a b, "(" ++ ka ++ op.src ++ kb ++ ")")
 
+/-! ## relations held with a permuted physical column order -/
+
+def colNames : List String := ["a", "b", "c", "d", "e"]
+
+def shuffle {α} [Inhabited α] (xs : List α) : Gen (List α) := do
+  let mut rest := xs
+  let mut out : List α := []
+  for _ in [0:xs.length] do
+    let i ← rand rest.length
+    out := rest.getD i default :: out
+    rest := rest.eraseIdx i
+  pure out
+
+/-- row `r` of the master relation: column `j` holds `(r + shift_j) % 5`, so every column is a key -/
+def masterRows (shifts : List Nat) : List (List Lit) :=
+  (List.range 5).map fun r => shifts.map fun sh => numL (((r + sh) % 5 : Nat))
+
+def projSrc (names : List String) (rows : List (List Lit)) (cols : List Nat) : String :=
+  "{|" ++ ", ".intercalate (cols.map fun c => names.getD c "a") ++ "| " ++
+    ", ".intercalate (rows.map fun row =>
+      "(" ++ ", ".intercalate (cols.map fun c => (row.getD c (numL 0)).src) ++ ")") ++ "}"
+
+/-- a random association (and operand order) of the natural join of the leaves, left to right -/
+def joinTree : Nat → List String → Gen String
+  | _, [] => pure "{}"
+  | _, [x] => pure x
+  | 0, x :: r => pure (r.foldl (fun acc y => "(" ++ acc ++ " <&> " ++ y ++ ")") x)
+  | f + 1, ls => do
+    let k ← rand (ls.length - 1)
+    let a ← joinTree f (ls.take (k + 1))
+    let b ← joinTree f (ls.drop (k + 1))
+    let sw ← chance 1 2
+    pure ("(" ++ (if sw then b ++ " <&> " ++ a else a ++ " <&> " ++ b) ++ ")")
+
+/-- the relation `{|names| rows}` (every column a key) computed as a join of its projections on pairs
+of columns that are consecutive in a random column order: the value of the literal, another physical
+column order -/
+def genPermRel (names : List String) (rows : List (List Lit)) : Gen E := do
+  if rows.isEmpty then pure (.lit (.set []))
+  else
+    let k := names.length
+    let order ← shuffle (List.range k)
+    let leaves : List String :=
+      if k ≤ 1 then [projSrc names rows order]
+      else if k == 2 then [projSrc names rows (order.drop 1), projSrc names rows order]
+      else (List.range (k - 1)).map fun i => projSrc names rows [order.getD i 0, order.getD (i + 1) 0]
+    let leaves ← if k == 2 then (do if ← chance 1 2 then pure leaves.reverse else pure leaves) else pure leaves
+    let src ← joinTree leaves.length leaves
+    pure (.relj names rows src)
+
+def pickRows (rows : List (List Lit)) : Gen (List (List Lit)) := do
+  let mut out : List (List Lit) := []
+  for r in rows do
+    if ← chance 3 5 then out := r :: out
+  if out.isEmpty then pure (rows.take 1) else pure out.reverse
+
+def rowTuple (names : List String) (row : List Lit) : Lit := .tup (names.zip row)
+
+def genPermProgram (idx : Nat) : Gen (List Case) := do
+  let id := s!"C01-{idx}"
+  let k ← pick [3, 3, 3, 4, 4, 5, 2]
+  let names := colNames.take k
+  let shifts ← genList k (rand 5)
+  let master := masterRows shifts
+  let ra ← pickRows master
+  let rb ← pickRows master
+  let a ← genPermRel names ra
+  let bk ← rand 4
+  let extra : List Lit := names.map fun _ => numL 7
+  let b ← match bk with
+    | 0 => genPermRel names rb
+    | 1 => do
+      let pn ← shuffle (List.range k)
+      let rows := (if ← chance 1 3 then rb ++ [extra] else rb)
+      pure (E.lit (.rel (pn.map fun c => names.getD c "a") (rows.map fun row => pn.map fun c => row.getD c (numL 0))))
+    | 2 => pure (E.lit (.set (rb.map (rowTuple names))))
+    | _ => do
+      -- a relation of another heading, or a mixed set holding some of the rows
+      if ← chance 1 2 then pure (E.lit (.set (numL 1 :: (rb.take 2).map (rowTuple names))))
+      else genPermRel (names.take (k - 1)) (rb.map (·.take (k - 1)))
+  let bkName := match bk with | 0 => "perm" | 1 => "lit" | 2 => "set" | _ => "other"
+  let form ← rand 10
+  if form < 5 then
+    let op ← pick setOps
+    let sw ← chance 1 2
+    let e : E := if sw then .bin op b a else .bin op a b
+    observe id s!"permrel/{op.src}/{k}/{bkName}" e true
+  else if form < 7 then
+    let op ← pick (subsetOps ++ [.compe, .ncompe])
+    let sw ← chance 1 2
+    observe id s!"permrel/{op.src}/{k}/{bkName}" (if sw then .cmp op b a else .cmp op a b) false
+  else if form < 8 then
+    let op ← pick [BinOp.with_, BinOp.without]
+    let row ← pick master
+    let row ← if ← chance 1 4 then pure extra else pure row
+    observe id s!"permrel/{op.src}/{k}" (.bin op a (.lit (rowTuple names row))) true
+  else if form < 9 then
+    let n ← pick names
+    let kk : T := .const (numL (← rand 5))
+    let p ← pick [P.lt (.attr .dot n) kk, P.ne (.attr .dot n) kk, P.le kk (.attr .dot n)]
+    let viaDarrow ← chance 1 2
+    let n2 ← pick names
+    let f ← pick [T.attr .dot n, T.tup2 "x" (.attr .dot n) "y" (.attr .dot n2), T.tup2 "@" (.attr .dot n) "@item" .dot]
+    if viaDarrow then observe id s!"permrel/=>/{k}" (.darrow a f) true
+    else observe id s!"permrel/where/{k}" (.where_ a p) true
+  else
+    let small ← genPermRel names (ra.take 3)
+    if ← chance 1 2 then observe id s!"permrel/^/{k}" (.pow small) true
+    else observe id s!"permrel/count/{k}" (.bin .union (.bin .inter a b) small) true
+
+/-! ## three steps from one shared intermediate value -/
+
+/-- a member that extends the set "at its end": the next index of a sequence, a fresh key, a new row -/
+def nextElem (ms : List V) : Gen Lit := do
+  let pairs := ms.filterMap fun m => match m with
+    | .tup [("@", .num i), (n, _)] => some (n, i)
+    | _ => none
+  match pairs with
+  | (n, i0) :: r =>
+    let hi := r.foldl (fun acc p => if p.1 == n && acc < p.2 then p.2 else acc) i0
+    let at_ ← if ← chance 1 5 then pure (hi + 2) else pure (hi + 1)
+    if n == "@char" then pure (charL at_ (← genChar))
+    else if n == "@byte" then pure (byteL at_ (← rand 3))
+    else if n == "@item" then pure (itemL at_ (← genAtom))
+    else pure (entryL (numL (← rand 5)) (← genNum))
+  | [] =>
+    match ms with
+    | .tup as :: _ =>
+      if as.isEmpty then genNum else do
+        let vals ← genList as.length genNum
+        pure (.tup ((as.map (·.1)).zip vals))
+    | _ => do
+      if ← chance 1 3 then genBucketMember (← rand 8) else genNum
+
+def genStep (a : E) : Gen (BinOp × E) := do
+  let ms := membersOf a
+  let r ← rand 10
+  if r < 7 then pure (.with_, .lit (← nextElem ms))
+  else if r < 8 && !ms.isEmpty then pure (.without, .lit (litOfV (← pickV ms)))
+  else pure (.union, .lit (.set [← nextElem ms]))
+
+def genBranchProgram (idx : Nat) : Gen (List Case) := do
+  let kind ← pick ["arr", "arr", "sparsearr", "str", "offstr", "holestr", "bytes", "offbytes", "dict", "multidict",
+    "rel", "setnum", "union"]
+  let x ← genOperand kind
+  let (o1, e1) ← genStep x
+  let a : E := .bin o1 x e1
+  let (o2, e2) ← genStep a
+  let (o3, e3) ← genStep a
+  let b : E := .bin o2 a e2
+  let c : E := .bin o3 a e3
+  match Spec.eval a, Spec.eval b, Spec.eval c, Impl.eval a, Impl.eval b, Impl.eval c with
+  | .ok va, .ok vb, .ok vc, ma, mb, mc =>
+    let cls := classOfFlags ((flags b).or (flags c))
+    let model := match ma, mb, mc with
+      | .ok ia, .ok ib, .ok ic => (V.mkArr [ib.toV, ic.toV, ia.toV]).canon
+      | .panic, _, _ | _, .panic, _ | _, _, .panic => "panic"
+      | _, _, _ => "?"
+    if cls == "good" && model == "?" then pure []
+    else
+      let src := "let a = " ++ a.src ++ "; let b = (a " ++ o2.src ++ " " ++ e2.src ++ "); let c = (a " ++
+        o3.src ++ " " ++ e3.src ++ "); [b, c, a]"
+      pure [{ id := s!"C01-{idx}-br", cls := cls, kind := "eval", stratum := s!"branch/{kind}/{o2.src}/{o3.src}",
+              model := model, spec := (V.mkArr [vb, vc, va]).canon, payload := [src] }]
+  | _, _, _, _, _, _ => pure []
+
 def genProgram (idx : Nat) : Gen (List Case) := do
   let id := s!"C01-{idx}"
-  let form ← rand 100
+  let form0 ← rand 115
+  if form0 ≥ 107 then genBranchProgram idx
+  else if form0 ≥ 100 then genPermProgram idx
+  else
+  let form := form0
   if form < 40 then
     let (a, ka, b, kb) ← genPair
     let op ← pick setOps
@@ -547,9 +717,16 @@ def corpusExprs : List (String × E) :=
     ("range-char-union", .bin .union (.lit (.set [pairL "@char" (numL 0) (numL (-1))])) (s "ab")),
     ("range-byte-set", .count (.lit (.set [byteL 0 300, byteL 0 44]))),
     -- Relation.With takes a specialisable tuple into a relation of heading (@, @char)
-    ("kf-relwith", .bin .with_ (.lit (.set [pairL "@char" (numL 0) (numL (-1))])) (.lit (charL 1 97))),
-    ("kf-relwith-has", .cmp .mem (.lit (charL 1 97))
+    ("relwith", .bin .with_ (.lit (.set [pairL "@char" (numL 0) (numL (-1))])) (.lit (charL 1 97))),
+    ("relwith-has", .cmp .mem (.lit (charL 1 97))
         (.bin .union (.bin .with_ (.lit (.set [pairL "@char" (numL 0) (numL (-1))])) (.lit (charL 1 97))) (.lit (.str 2 [120])))),
+    -- a relation computed by joins holds its columns in another physical order than a literal
+    ("permrel-inter", .bin .inter (.relj ["a", "b", "c"] [[numL 3, numL 1, numL 2]] "({|b, c| (1, 2)} <&> {|a, b| (3, 1)})")
+        (.lit (.rel ["a", "b", "c"] [[numL 3, numL 1, numL 2]]))),
+    ("permrel-diff", .bin .diff (.relj ["a", "b", "c"] [[numL 3, numL 1, numL 2]] "({|b, c| (1, 2)} <&> {|a, b| (3, 1)})")
+        (.lit (.rel ["a", "b", "c"] [[numL 3, numL 1, numL 2]]))),
+    ("permrel-symdiff", .bin .symdiff (.lit (.rel ["a", "b", "c"] [[numL 3, numL 1, numL 2], [numL 0, numL 0, numL 0]]))
+        (.relj ["a", "b", "c"] [[numL 3, numL 1, numL 2]] "({|b, c| (1, 2)} <&> {|a, b| (3, 1)})")),
     -- power set, subset family, true/empty
     ("pow-str", .pow (s "ab")),
     ("pow-true", .pow (.lit .tt)),
@@ -567,7 +744,12 @@ def rawCorpus : List Case :=
   [ { id := "C01-corpus-frac-char", cls := "good", kind := "eval", stratum := "corpus",
       model := "{(@:1.5,@char:97)}", spec := "{(@:1.5,@char:97)}", payload := ["{(@: 1.5, @char: 97)}"] },
     { id := "C01-corpus-frac-char-has", cls := "good", kind := "eval", stratum := "corpus",
-      model := "{}", spec := "{}", payload := ["((@: 1.5, @char: 98) <: 'abc')"] } ]
+      model := "{}", spec := "{}", payload := ["((@: 1.5, @char: 98) <: 'abc')"] },
+    -- two values grown from one shared array must not see each other's item
+    { id := "C01-corpus-branch-array", cls := "good", kind := "eval", stratum := "corpus",
+      model := "{(@:0,@item:{(@:0,@item:1),(@:1,@item:2),(@:2,@item:3),(@:3,@item:4)}),(@:1,@item:{(@:0,@item:1),(@:1,@item:2),(@:2,@item:3),(@:3,@item:5)}),(@:2,@item:{(@:0,@item:1),(@:1,@item:2),(@:2,@item:3)})}",
+      spec := "{(@:0,@item:{(@:0,@item:1),(@:1,@item:2),(@:2,@item:3),(@:3,@item:4)}),(@:1,@item:{(@:0,@item:1),(@:1,@item:2),(@:2,@item:3),(@:3,@item:5)}),(@:2,@item:{(@:0,@item:1),(@:1,@item:2),(@:2,@item:3)})}",
+      payload := ["let a = [1, 2] with (@: 2, @item: 3); let b = a with (@: 3, @item: 4); let c = a with (@: 3, @item: 5); [b, c, a]"] } ]
 
 /-! ## exhaustive pairs from a fixed pool (thorough tier) -/
 
